@@ -3,12 +3,13 @@ import json
 import os
 
 
-def build_feat(ctx, features=("deadlock", "metrics", "testutils")):
+def build_feat(ctx, features=("deadlock", "metrics", "testutils", "rstracing")):
     """harness build with optional rsactor features, in its own target dir"""
     H = ctx["HARNESS"]
     ctx["build_harness"]([])  # writes Cargo.toml for the tree under test (and builds the default flavour)
     env = dict(os.environ, CARGO_NET_OFFLINE="true", CARGO_TARGET_DIR=os.path.join(H, "target-feat"))
-    rc, out, err = ctx["sh"](["cargo", "build", "--release", "--offline", "--features", ",".join(features)], cwd=H, timeout=3000, env=env)
+    cmd = ["cargo", "build", "--release", "--offline"] + (["--features", ",".join(features)] if features else [])
+    rc, out, err = ctx["sh"](cmd, cwd=H, timeout=3000, env=env)
     if rc != 0:
         raise ctx["Infra"]("cannot build the feature harness against the tree under test:\n" + err[-3000:])
     return os.path.join(H, "target-feat", "release")
@@ -46,6 +47,7 @@ STRESS_SCENARIOS = {
     "C08": (["idlewin"], 0, ["idlewin"], 0),
     "C10": (["late"], 0, ["late", "blocking"], 0),
     "C11": (["ids"], 0, ["ids"], 0),
+    "C16": (["lazyfut"], 0, ["lazyfut"], 0),
     "C17": (["blocking", "late"], 0, ["blocking", "late", "hammer"], 60),
 }
 
@@ -74,6 +76,7 @@ def stress(prop, tier, seed, ctx):
 
 NET_CLASSES = [
     ("although no chain", {"C15", "C12"}),
+    ("although every ask has finished", {"C15", "C12"}),
     ("was due but did not happen", {"C14"}),
     ("wait-for graph:", {"C15", "C14", "C12"}),
     ("poisoned", {"C12", "C15"}),
@@ -88,12 +91,13 @@ def netcorr(prop, tier, seed, ctx):
     bindir = build_feat(ctx)
     rep = os.path.join(ctx["BUILD"], f"netcorr_{prop}.json")
     n = 2500 if tier == "thorough" else 250
-    rc, out, err = ctx["sh"]([os.path.join(bindir, "netcorr"), "--driver", ctx["DRIVER"], "--seed", str(seed), "--n", str(n),
+    rc, out, err = ctx["sh"]([os.path.join(bindir, "netcorr"), "--driver", ctx["DRIVER"], "--seed", str(seed), "--n", str(n), "--joins", str(n),
                               "--corpus", os.path.join(ctx["ROOT"], "corpus"), "--report", rep], timeout=3600)
     if rc not in (0, 3):
         raise ctx["Infra"](f"netcorr failed rc={rc}:\n" + err[-2000:])
     r = json.load(open(rep))
-    res = {"evidence": {"histories": r["histories"], "summary": r["summary"], "fails": r["fails"], "deadlock_panics_observed": r["deadlocks"],
+    res = {"evidence": {"histories": r["histories"], "oracle_only_histories_with_concurrent_asks": r.get("oracle_only_histories_with_concurrent_asks", 0),
+                        "join_steps": r.get("join_steps", 0), "summary": r["summary"], "fails": r["fails"], "deadlock_panics_observed": r["deadlocks"],
                         "asks_timed_out": r["timeouts"], "handler_panics": r["panics"], "events": r["events"], "sample": r["sample"]},
            "violations": [], "broken": []}
     if not r["summary"]:
@@ -116,4 +120,100 @@ def netcorr(prop, tier, seed, ctx):
     return res
 
 
-EXTRA = {"tables": tables, "stress": stress, "netcorr": netcorr}
+ALL_FEATURES = ["rstracing", "metrics", "testutils", "deadlock"]   # harness names of tracing, metrics, test-utils, deadlock-detection
+FEATCORR = {
+    # property -> (families, quick n, thorough n, quick feature sets, compare builds?)
+    "C18": (["mixed", "shutdown", "burst", "timeouts", "handles", "idle"], 240, 1200, True),
+    "C20": (["mixed", "shutdown", "burst", "idle", "handles"], 300, 3000, False),
+}
+
+
+def _first_trace_diff(a_path, b_path):
+    """first trace (name, lines a, lines b) on which two trace files differ"""
+    def split(path):
+        out, cur, name = [], [], None
+        for l in open(path):
+            l = l.rstrip("\n")
+            if l.startswith("trace "):
+                name, cur = l, []
+            elif l == "endtrace":
+                out.append((name, cur))
+            else:
+                cur.append(l)
+        return out
+    A, B = split(a_path), split(b_path)
+    for (na, la), (nb, lb) in zip(A, B):
+        if na != nb or la != lb:
+            k = next((i for i, (x, y) in enumerate(zip(la, lb)) if x != y), min(len(la), len(lb)))
+            return {"trace": na, "other_trace": nb, "first_differing_line": k, "default_build": la[max(0, k - 12):k + 6], "feature_build": lb[max(0, k - 12):k + 6],
+                    "script": [x[2:] for x in la if x.startswith("> ") or x.startswith("# ")]}
+    if len(A) != len(B):
+        return {"trace": "count", "default_build": [str(len(A))], "feature_build": [str(len(B))]}
+    return None
+
+
+def featcorr(prop, tier, seed, ctx):
+    """the same seeded scripts on harness builds with different rsactor feature sets: every build against the
+    one model (step by step), the builds' raw traces against each other (byte for byte), acyclic multi-actor
+    programs with and without deadlock-detection; in metrics builds the metrics oracle runs at every quiescent point"""
+    import itertools
+    fams, nq, nt, compare = FEATCORR[prop]
+    n = nt if tier == "thorough" else nq
+    H, B = ctx["HARNESS"], ctx["BUILD"]
+    res = {"evidence": {"feature_sets": [], "scripts_per_set": n, "families": fams}, "violations": [], "broken": []}
+    if prop == "C20":
+        sets = [ALL_FEATURES] if tier != "thorough" else [ALL_FEATURES, ["metrics"]]
+    elif tier == "thorough":
+        sets = [list(c) for k in range(1, 5) for c in itertools.combinations(ALL_FEATURES, k)]
+        sets.sort(key=lambda s: s != ALL_FEATURES)
+    else:
+        sets = [ALL_FEATURES]
+    # reference: default features
+    ctx["build_harness"]([])
+    ref_bin = os.path.join(H, "target", "release")
+    def run(bindir, tag):
+        rep = os.path.join(B, f"featcorr_{prop}_{tag}.json")
+        tr = os.path.join(B, f"feattraces_{prop}_{tag}.txt")
+        rc, out, err = ctx["sh"]([os.path.join(bindir, "corr"), "--driver", ctx["DRIVER"], "--seed", str(seed), "--n", str(n), "--family", ",".join(fams),
+                                  "--corpus", os.path.join(ctx["ROOT"], "corpus"), "--report", rep, "--traces", tr], timeout=3000)
+        if rc not in (0, 3):
+            raise ctx["Infra"](f"corr ({tag}) failed rc={rc}:\n" + err[-2000:])
+        nd = os.path.join(B, f"netdump_{prop}_{tag}.txt")
+        if compare:
+            rc, out, err = ctx["sh"]([os.path.join(bindir, "netdump"), "--seed", str(seed), "--n", str(max(40, n // 4)), "--out", nd], timeout=3000)
+            if rc != 0:
+                raise ctx["Infra"](f"netdump ({tag}) failed rc={rc}:\n" + err[-2000:])
+        return json.load(open(rep)), tr, nd
+    ref = run(ref_bin, "default") if compare else None
+    for fs in sets:
+        tag = "+".join(fs)
+        bindir = build_feat(ctx, tuple(fs))
+        r, tr, nd = run(bindir, tag)
+        ev = {"features": fs, "scripts": r["scripts"], "macro_steps": r["macro_steps"], "divergences_from_model": len(r["divergences"]),
+              "oracle_failed_scripts": r.get("oracle_failed_scripts", 0), "metrics_oracle_active": r.get("metrics_oracle", False)}
+        if r["divergences"]:
+            d = r["divergences"][0]
+            res["broken"].append(f"correspondence (features {tag}): model and implementation diverge on {len(r['divergences'])} script(s); first: {d['script']} at step {d['step']} ({d['op']})")
+            if prop == "C18" and ref and not ref[0]["divergences"]:
+                pass  # the trace comparison below produces the failing input
+        for of in r.get("oracle_failures", [])[:1]:
+            if prop == "C20" or True:
+                res["violations"].append(("oracle-failure", f"real crate built with features {tag}: {of['what'][0]}",
+                                          {"failing_input": of, "features": fs, "seed": seed}))
+        if compare:
+            d = _first_trace_diff(ref[1], tr)
+            ev["traces_equal_to_default_build"] = d is None
+            if d is not None:
+                res["violations"].append(("feature-trace-difference", f"the build with features {tag} and the default build behave differently on script {d['trace']}",
+                                          {"failing_input": d, "features": fs, "seed": seed}))
+            d2 = _first_trace_diff(ref[2], nd)
+            ev["acyclic_multi_actor_programs_equal"] = d2 is None
+            if d2 is not None:
+                res["violations"].append(("feature-trace-difference", f"multi-actor program without ask cycle: the build with features {tag} and the default build behave differently on {d2['trace']}",
+                                          {"failing_input": d2, "features": fs, "seed": seed}))
+        res["evidence"]["feature_sets"].append(ev)
+    # leave the shared feature build in its usual flavour for the other engines
+    return res
+
+
+EXTRA = {"tables": tables, "stress": stress, "netcorr": netcorr, "featcorr": featcorr}
